@@ -376,6 +376,8 @@ def execute(spec):
                 except Exception:
                     pass
             hooks = {"after_construct": _decoy}
+        if spec.get("retry", True):
+            hooks = dict(hooks or {}, retry=True)
         out, w, _ = simrun.run_world(world, spec["sim"], seed=seed, step_cap=cap, hooks=hooks)
         fired = sum(out["fired"].values())
         vs += check_run(world, out, ref if not ref_out["system_exit"] else None, fired > 0)
@@ -396,6 +398,12 @@ def execute(spec):
     oo = world["args"].get("optimization_options") or {}
     sig = digest([world["class"], sorted(k for k, v in oo.items() if v), sorted(world["args"].get("solver_options", {})),
                   ref["n"], spec["sim"]["faults"], spec["sim"]["latency"], spec["sim"]["reply"]])
+    # monitored (not a clause of the property): does a plain second solve() on the *same* object recover?
+    retry = out.get("retry")
+    retry_tag = None
+    if retry is not None and ref["solved"] and not (out.get("post") or {}).get("solved"):
+        ok = bool(retry.get("solved")) and (world["class"] == "NumPathsOptimization" or _same_answer(world, retry.get("objective"), ref["objective"]))
+        retry_tag = "retry_same_object:" + ("recovered" if ok else "not_recovered:" + world["class"])
     return {
         "violations": uniq,
         "digest": digest([ref_out["digest"], out["digest"], rec_out["digest"], _summary(out)]),
@@ -406,7 +414,7 @@ def execute(spec):
         "invocations": len(ref_out["invocations"]) + len(out["invocations"]) + len(rec_out["invocations"]),
         "counters": {"class:" + world["class"]: 1, "plan:" + spec.get("tag", ""): 1,
                      "outcome:" + ("solved" if (out.get("post") or {}).get("solved") else ("exception" if out.get("solve_exc") else "unsolved")): 1,
-                     "ref:" + ("solved" if ref["solved"] else "unsolved"): 1},
+                     "ref:" + ("solved" if ref["solved"] else "unsolved"): 1, **({retry_tag: 1} if retry_tag else {})},
         "summary": {"ref": ref, "run": _summary(out)},
     }
 
